@@ -16,19 +16,36 @@ PYOP = {'add': '+', 'sub': '-', 'mul': '*', 'and': '&', 'or': '|', 'xor': '^', '
 _uid = itertools.count()
 
 class StructT:
-  """a bitstruct type: fields = [(name, width:int | StructT)]; layout: first field most significant"""
+  """a bitstruct type: fields = [(name, width:int | StructT | ('L', dims, w))]; layout: first field most significant; a list field
+  `f: [[BitsW]*d1]*d0` is laid out row-major with element [0]..[0] least significant within the field"""
   def __init__(self, name, fields):
     self.name, self.fields = name, fields
-    self.width = sum(f[1] if isinstance(f[1], int) else f[1].width for f in fields)
+    self.width = sum(self.fwidth(f[1]) for f in fields)
+  @staticmethod
+  def fwidth(ft):
+    if isinstance(ft, int): return ft
+    if isinstance(ft, tuple):
+      n = 1
+      for k in ft[1]: n *= k
+      return n * ft[2]
+    return ft.width
   def named(self, prefix='', base=None):
-    """all named sub-ranges [(path, lo, w, is_leaf)], whole struct excluded"""
+    """all named sub-ranges [(path, lo, w, is_leaf)], whole struct excluded (a list field contributes its elements only: the
+    list itself is a Python list, not a value)"""
     out = []
     hi = self.width if base is None else base
     for fname, ft in self.fields:
-      w = ft if isinstance(ft, int) else ft.width
+      w = self.fwidth(ft)
       lo = hi - w
-      out.append((prefix + fname, lo, w, isinstance(ft, int)))
-      if not isinstance(ft, int): out += ft.named(prefix + fname + '.', hi)
+      if isinstance(ft, tuple):
+        _, dims, ew = ft
+        idxs = [()]
+        for k in dims: idxs = [i + (j,) for i in idxs for j in range(k)]
+        for e, ix in enumerate(idxs):
+          out.append((prefix + fname + ''.join(f'[{j}]' for j in ix), lo + e * ew, ew, True))
+      else:
+        out.append((prefix + fname, lo, w, isinstance(ft, int)))
+        if not isinstance(ft, int): out += ft.named(prefix + fname + '.', hi)
       hi = lo
     return out
   def leaves(self):
@@ -36,7 +53,7 @@ class StructT:
   def all_types(self):
     out = []
     for _, ft in self.fields:
-      if not isinstance(ft, int):
+      if not isinstance(ft, (int, tuple)):
         for t in ft.all_types():
           if t not in out: out.append(t)
     out.append(self)
@@ -44,7 +61,12 @@ class StructT:
   def py_source(self):
     lines = ['@bitstruct', f'class {self.name}:']
     for fname, ft in self.fields:
-      lines.append(f'  {fname}: ' + (f'Bits{ft}' if isinstance(ft, int) else ft.name))
+      if isinstance(ft, tuple):
+        t = f'Bits{ft[2]}'
+        for k in reversed(ft[1]): t = f'[{t}]*{k}'
+        lines.append(f'  {fname}: {t}')
+      else:
+        lines.append(f'  {fname}: ' + (f'Bits{ft}' if isinstance(ft, int) else ft.name))
     return lines
 
 class Sig:
@@ -430,6 +452,13 @@ def generate(rng, max_blocks=8, with_children=True, with_regs=True, wide=False, 
     flat = StructT(f'SF{d.uid}', [(f'f{i}', rng.choice([1, 2, 4, 8, 8])) for i in range(rng.randint(2, 3))])
     nest = StructT(f'SN{d.uid}', [('a', rng.choice([2, 4])), ('inner', inner), ('z', rng.choice([1, 4, 8]))])
     stypes = [flat, nest] if rng.random() < 0.6 else [rng.choice([flat, nest])]
+    if rng.random() < 0.3:
+      # a list field, mostly not square: the generated <<= / _flip / @= of a bitstruct enumerate its elements
+      dims = rng.choice([(2, 3), (3, 2), (2,), (3,), (2, 2), (1, 3), (2, 1, 2)])
+      lf = [('t', rng.choice([1, 2, 4])), ('e', ('L', dims, rng.choice([1, 2, 4, 8])))]
+      if rng.random() < 0.5: lf.append(('u', rng.choice([1, 4])))
+      if rng.random() < 0.3: lf.reverse()
+      stypes.append(StructT(f'SL{d.uid}', lf))
   ST = lambda: (rng.choice(stypes) if stypes and rng.random() < 0.4 else None)
   # names with prefix relations on purpose (w1 / w10 / w1x, out / out_q): code that compares reprs by prefix must not confuse them
   def names(base, k):
